@@ -6,6 +6,7 @@ import (
 	"io"
 	"io/ioutil"
 	"net/http"
+	"sync/atomic"
 )
 
 // fakeHTTP is the scripted HTTP client every C14 case runs against. It
@@ -18,6 +19,12 @@ type fakeHTTP struct {
 	body   []byte
 	chunk  int  // > 0: the body reader returns at most chunk bytes per Read
 	early  bool // answer without reading the request body (it is closed, as a Transport does)
+	// answerAfter > 0: read that many bytes of the request body, then close it
+	// and answer (a server that refuses an upload half way)
+	answerAfter int64
+	// started / returned count Do calls entered and left (read by the monitor
+	// while a caller may still be blocked)
+	started, returned int32
 
 	calls      int
 	reqMethod  string
@@ -43,14 +50,24 @@ func (b *fakeBody) Close() error {
 	return nil
 }
 
+// scriptDone: every Do the fake was given has returned.
+func (f *fakeHTTP) scriptDone() bool {
+	return atomic.LoadInt32(&f.started) == atomic.LoadInt32(&f.returned)
+}
+
 func (f *fakeHTTP) Do(req *http.Request) (*http.Response, error) {
+	atomic.AddInt32(&f.started, 1)
+	defer atomic.AddInt32(&f.returned, 1)
 	f.calls++
 	f.reqMethod = req.Method
 	f.reqPath = req.URL.Path
 	if req.Body != nil {
-		if !f.early {
-			n, _ := io.Copy(ioutil.Discard, req.Body)
-			f.reqBodyLen = n
+		switch {
+		case f.early:
+		case f.answerAfter > 0:
+			f.reqBodyLen, _ = io.CopyN(ioutil.Discard, req.Body, f.answerAfter)
+		default:
+			f.reqBodyLen, _ = io.Copy(ioutil.Discard, req.Body)
 		}
 		req.Body.Close()
 	}
